@@ -11,6 +11,8 @@
 (*   "refuse"  (TCP) is not listening at all,                              *)
 (*   "stall"   (TCP) accepts the connection and never writes,              *)
 (*   "close"   (TCP) accepts and closes at once,                           *)
+(*   "partial" (TCP) accepts, writes the first half of a valid reply and   *)
+(*             then stays silent with the connection open,                 *)
 (*   "blackhole" (TCP) never completes the handshake (full accept queue).  *)
 (* The client, configured with timeout T for connect, read and write and   *)
 (* r retries, performs at most B blocking steps, each bounded by T:        *)
@@ -38,7 +40,9 @@ Protos ==
 Names == DOMAIN Protos
 
 Modes(p) == IF p = "valve" THEN {"silent", "chalsilent"}
-            ELSE IF Protos[p].tr = "udp" THEN {"silent"} ELSE {"refuse", "stall", "close", "blackhole"}
+            ELSE IF Protos[p].tr = "udp" THEN {"silent"}
+            ELSE IF Protos[p].tr = "tcp" THEN {"refuse", "stall", "close", "blackhole", "partial"}
+            ELSE {"refuse", "stall", "close", "blackhole"}
 \* which timeouts the caller configured: "r" = connect and read (write left unset), "rw" = connect, read and write.
 \* (A read timeout left unset means "block": not a bounded case.)
 \* "default" = the caller passes no settings at all: the documented defaults (4 s each) are the configured timeouts
